@@ -85,6 +85,20 @@ PartialV(e) ==
        \cup Clause(e.nparams_pos_removed # fl.n /\ e.nparams_pos_removed >= 0, "C19_BoundPositionalsDisappear")
      ELSE Clause(real # {}, "C19_RaisesOnlyIfUncallable"))
 
+ForwardsV(e) ==
+  LET o == e.ins[1].ps  i == e.ins[2].ps  fl == e.flags IN
+  (IF W("C10") /\ e.out.tag = "sig" /\ ~fl.partial THEN C10_EmbedMeta(o, i, e.out.ps) ELSE {})
+
+(* C10: keywords bound by a partial appear as keyword-only parameters whose default is the bound value *)
+PartialMetaV(e) ==
+  LET f == e.ins[1].ps  fl == e.flags  kb == Rng(fl.names)  out == e.out IN
+  IF ~W("C10") \/ out.tag # "sig" \/ kb \cap PoNames(f) # {} THEN {}
+  ELSE Clause(\E k \in kb : ~\E x \in DOMAIN out.ps : out.ps[x].n = k /\ out.ps[x].k = "kwo" /\ out.ps[x].d /\ out.ps[x].dv = fl.vals[k],
+              "C10_PartialKeywordIsKwoWithBoundDefault")
+       \cup Clause(\E x \in DOMAIN out.ps : out.ps[x].n \in AllNames(f) /\ out.ps[x].n \notin kb /\
+                     LET p == ParamOf(f, out.ps[x].n) q == out.ps[x] IN ~KindOrder(p.k, q.k) \/ p.d # q.d \/ p.dv # q.dv \/ p.an # q.an,
+                   "C10_PartialOthersKept")
+
 ProvV(e) ==
   IF ~W("C08") \/ e.out.tag # "sig" THEN {}
   ELSE SourcesWF(e.out) \cup (IF e.plain THEN SourcesVsInputs(e.op, e.ins, e.flags, e.out) ELSE {})
@@ -117,7 +131,8 @@ Verdict(e) ==
   ELSE (CASE e.op = "merge" -> MergeV(e)
           [] e.op = "embed" -> EmbedV(e)
           [] e.op = "mask" -> MaskV(e)
-          [] e.op = "partial" -> PartialV(e)
+          [] e.op = "partial" -> PartialV(e) \cup PartialMetaV(e)
+          [] e.op = "forwards" -> ForwardsV(e)
           [] OTHER -> {})
        \cup ProvV(e)
        \cup PureV(e)
